@@ -641,6 +641,7 @@ def r2(idx, rep):
 
 
 def r4(idx, rep):
+    path_is_not_a_name(idx, rep, "R4")
     fi = idx.method("CsvPath", "get_total_lines_and_headers")
     rep.analysed(fi)
     it = Interp(idx, types={"self": "CsvPath"}, unknown_calls="residual",
@@ -757,6 +758,28 @@ def _order_free_loop(fi, loop):
             continue
         return False
     return sorted_after
+
+
+def path_is_not_a_name(idx, rep, rid):
+    """A csvpath of a CsvPaths may name its file by path (`$/data/f.csv[*][…]`, `$data/f.csv[…]`) exactly like a bare CsvPath: the file manager
+    must answer "no such named file" for a path — also for an absolute one, which os.path.join hands back unchanged so that the data file
+    itself would pass for the named file's home — and must not consult the registrar about it."""
+    fg = idx.method("FileManager", "get_named_file")
+    rep.analysed(fg, idx.method("FileManager", "name_exists"))
+    import os as _os
+    bad = None
+    existing = {"/abs/data/f.csv", "IN/named_files", "IN/named_files/orders", "rel/f.csv"}
+    for name, want in (("/abs/data/f.csv", None), ("rel/f.csv", None), ("orders", "REGISTERED:IN/named_files/orders"), ("nosuch", None)):
+        it = Interp(idx, types={"self": "FileManager"}, unknown_calls="residual", inline_all={"FileManager"}, inline={f"FileManager.{p_}" for p_ in idx.cls("FileManager").properties},
+                    handlers={"os.path.join": lambda i, c, r, a, k: _os.path.join(*a), "os.path.exists": lambda i, c, r, a, k: a[0] in existing,
+                              "os.path.isdir": lambda i, c, r, a, k: a[0] in existing and not a[0].endswith(".csv"), "os.path.isabs": lambda i, c, r, a, k: _os.path.isabs(a[0]),
+                              "self.registrar.registered_file": lambda i, c, r, a, k: "REGISTERED:" + str(a[0])},
+                    domains={"self._csvpaths.config.inputs_files_path": ["IN/named_files"]})
+        ps = it.run_all(fg, args={"name": name})
+        if len(ps) != 1 or ps[0].result != ("return", want):
+            bad = bad or (f"FileManager.get_named_file({name!r}) = {[p.result for p in ps][:2]}, documented {want!r}: a path given where a name could stand is not a registered "
+                          "name (the csvpath then runs on the path itself, as it does in a bare CsvPath)")
+    rep.check(bad is None, rid, f"{fg.file}::FileManager.get_named_file does not take a path for a name", bad or "4 names", K.where(fg, fg.node))
 
 
 def r5(idx, rep):
